@@ -30,6 +30,8 @@ def run(ctx):
         ctx.guarded("R-C07-accounting", accounting, ctx, prog, ver)
         ctx.guarded("R-C07-gate", gate, ctx, prog, ver)
         ctx.guarded("R-C07-pkid", pkid, ctx, prog, ver)
+        ctx.guarded("R-C07-collision-resolve", collision_reset, ctx, prog, ver)
+        ctx.guarded("R-C07-unique", id_held_by_release, ctx, prog, ver)
 
 
 def block_effects(prog, body, bb):
@@ -194,9 +196,10 @@ def accounting(ctx, prog, ver):
                     if body.name == "outgoing_publish":
                         # on the edge where the slot is occupied: dominated by true edge of Option::is_some on outgoing_pub.get(..)
                         from .c15 import switch_on_call_result
-                        sw = switch_on_call_result(body, r"Option::<T>::is_some$")
-                        if sw and any(dominates(body, s_[1], bi) for s_ in sw):
-                            ctx.ok(rule2, body.id, "collision = Some(publish) only when outgoing_pub[pkid] is occupied", site=body.loc(st.get("sp")))
+                        sw = switch_on_call_result(body, r"Option::<T>::is_some$") + switch_on_call_result(body, r"FixedBitSet::contains$", "outgoing_rel")
+                        held_edges = [(s_[0], s_[1]) for s_ in sw]
+                        if sw and (any(dominates(body, s_[1], bi) for s_ in sw) or must_pass(body, [0], [bi], via_edges=held_edges, include_from=True)):
+                            ctx.ok(rule2, body.id, "collision = Some(publish) only when the packet id is held (outgoing_pub[pkid] occupied / release pending)", site=body.loc(st.get("sp")))
                         else:
                             ctx.violation(rule2, body.id, "collision parked without occupied slot", "a publish is parked as a collision although its packet id slot is free: nothing will ever resolve it", site=body.loc(st.get("sp")))
                     elif body.name != "new":
@@ -430,3 +433,62 @@ def pkid(ctx, prog, ver):
                           site=np.fn_loc())
         else:
             ctx.ok(rule, np.id, "wrap test against %s is sound (%s)" % (limit, "limit never rewritten" if not writers else "guarded by an ordering test on the same limit"))
+
+
+def collision_reset(ctx, prog, ver):
+    """'a collision is only ever pending while the colliding id is genuinely held': MqttState::clean() empties
+    outgoing_pub and the window, so it must empty the collision slot too (Option::take / = None on every path) —
+    a collision left pending after clean() can be resolved by no acknowledgement and closes the request gate for good."""
+    rule = "R-C07-collision-resolve"
+    pre = dict((v[0], v[1]) for v in VERSIONS)[ver]
+    body = prog.one("^" + re.escape(pre) + r"clean$")
+    clears = []
+    for bb, t in body.calls():
+        if not body.is_cleanup(bb) and re.search(r"Option::<T>::take$|mem::take$|mem::replace$", callee_path(t)):
+            fs = [x.split(".")[-1] for x in (receiver_fields(body, t) or [])]
+            if fs[-1:] == ["collision"]:
+                clears.append(bb)
+    for bi, b in enumerate(body.blocks):
+        if b.get("cleanup"):
+            continue
+        for st in b["s"]:
+            if "lhs" in st and [x.split(".")[-1] for x in place_fields(st["lhs"])][-1:] == ["collision"] and st["rv"]["k"] == "agg" and st["rv"].get("var") == "None":
+                clears.append(bi)
+    if clears and must_pass(body, [0], return_blocks(body), via_blocks=set(clears), include_from=True):
+        ctx.ok(rule, body.id, "clean() empties the collision slot on every path", site=body.fn_loc())
+    else:
+        ctx.violation(rule, body.id, "collision survives clean()",
+                      "MqttState::clean() hands the parked publish to the caller (or not) but leaves `collision` set while it empties outgoing_pub and the window: after the reconnect the request gate `!inflight_full && !collision` stays closed although no unacknowledged publish holds that id — nothing can ever resolve the collision",
+                      site=body.fn_loc())
+
+
+def id_held_by_release(ctx, prog, ver):
+    """'no two publishes that are simultaneously unacknowledged carry the same id': a QoS 2 publish leaves outgoing_pub
+    at PUBREC but keeps its id (outgoing_rel, counted in inflight) until PUBCOMP — the handler of which already calls
+    check_collision.  outgoing_publish must treat such an id as taken: the store into outgoing_pub is reached only over
+    the false edge of a test on outgoing_rel as well."""
+    rule = "R-C07-unique"
+    pre = dict((v[0], v[1]) for v in VERSIONS)[ver]
+    body = prog.one("^" + re.escape(pre) + r"outgoing_publish$")
+    from .c15 import switch_on_call_result
+    rel = switch_on_call_result(body, r"FixedBitSet::contains$", "outgoing_rel")
+    stores = []
+    for bi, b in enumerate(body.blocks):
+        if b.get("cleanup"):
+            continue
+        for st in b["s"]:
+            if "lhs" in st and st["lhs"]["l"] == 1 and "outgoing_pub" in [x.split(".")[-1] for x in place_fields(st["lhs"])]:
+                stores.append((bi, st))
+        t = b["t"]
+        if t["k"] == "call" and re.search(r"IndexMut<.*>>::index_mut$", callee_path(t)) and (receiver_fields(body, t) or [None])[-1] == "outgoing_pub":
+            stores.append((bi, {"sp": t.get("sp")}))
+    if not stores:
+        raise AnchorMissing("outgoing_publish (%s): the store into outgoing_pub was not found" % ver)
+    ok = bool(rel) and all(any(dominates(body, r[2], bi) for r in rel) for bi, _ in stores)
+    if ok:
+        ctx.ok(rule, body.id, "a publish is stored under an id only if no release is pending on it (outgoing_rel tested)", site=body.loc(stores[0][1].get("sp")))
+    else:
+        ctx.violation(rule, body.id, "id of a pending release reused",
+                      "outgoing_publish tests only outgoing_pub[pkid] before it uses an id: a QoS 2 publish that has received PUBREC has left outgoing_pub but holds its id (outgoing_rel, inflight) until PUBCOMP, "
+                      "so a wrapped-around publish goes out under the same id while that exchange is unfinished — two unacknowledged publishes share an id and their PUBREC/PUBCOMP cannot be told apart",
+                      site=body.loc(stores[0][1].get("sp")))
